@@ -24,7 +24,7 @@
 #include "assert_hook.h"
 
 // capture everything print_tokens writes
-static char OUT[16];
+static char OUT[32];
 static int OUTN;
 static bool OUT_overflow;
 static void out_put(char c) { if (OUTN < (int)sizeof(OUT) - 1) OUT[OUTN++] = c; else OUT_overflow = true; }
@@ -35,7 +35,7 @@ static int verif_fprintf(FILE *f, const char *fmt, ...) {
     if (fmt[i] == '%' && fmt[i + 1] == '.' && fmt[i + 2] == '*' && fmt[i + 3] == 's') {
       int n = va_arg(ap, int);
       char *s = va_arg(ap, char *);
-      for (int k = 0; k < 4 && k < n; k++) out_put(s[k]);
+      for (int k = 0; k < 6 && k < n; k++) out_put(s[k]);
       i += 3;
     } else if (fmt[i] == '%' && fmt[i + 1] == 'c') {
       out_put((char)va_arg(ap, int));
@@ -108,6 +108,7 @@ static int model_lex(char *s, MTok *out) {
       }
       len = j - i; kind = TK_PP_NUM;
     } else if ((len = vk_read_ident(s + i)) > 0) kind = TK_IDENT;
+    else if (len == -2) return -1;                                  // invalid UTF-8 sequence: diagnostic
     else if ((len = vk_read_punct(s + i)) > 0) kind = TK_PUNCT;
     else return -1;                                                 // "invalid token"
     if (n >= MAXTOK) return -1;
@@ -124,7 +125,12 @@ static void pair(int ka, int kb) {
   HAVOC_IN();
   __CPROVER_assume(IN.la >= 1 && IN.la <= 2 && IN.lb >= 1 && IN.lb <= 2);
   for (int i = 0; i < 2; i++) {
+#ifdef WIDE8
+    // non-ASCII identifiers: all byte values; the UTF-8 stubs below admit the 2-byte sequences U+00C0..U+02FF
+    __CPROVER_assume(IN.a[i] >= 1 && IN.b[i] >= 1);
+#else
     __CPROVER_assume(IN.a[i] >= 1 && IN.a[i] < 128 && IN.b[i] >= 1 && IN.b[i] < 128);
+#endif
     __CPROVER_assume(IN.a[i] != '"' && IN.a[i] != '\'' && IN.b[i] != '"' && IN.b[i] != '\'');
   }
   // "A B\n" must lex as exactly the two tokens A and B (each spelling is ONE token)
@@ -167,10 +173,10 @@ static void pair(int ka, int kb) {
   int nr = model_lex(OUT, r);
   VASSERT(nr >= 1 && r[0].kind == ka && r[0].len == IN.la, "first re-lexed token has the kind and length of A");
   for (int i = 0; i < 2; i++)
-    if (nr >= 1 && i < IN.la) VASSERT(OUT[r[0].off + i] == IN.a[i], "first re-lexed token is spelled like A");
+    if (nr >= 1 && i < IN.la) VASSERT((unsigned char)OUT[r[0].off + i] == IN.a[i], "first re-lexed token is spelled like A");
   VASSERT(nr >= 2 && r[1].kind == kb && r[1].len == IN.lb, "second re-lexed token has the kind and length of B");
   for (int i = 0; i < 2; i++)
-    if (nr >= 2 && i < IN.lb) VASSERT(OUT[r[1].off + i] == IN.b[i], "second re-lexed token is spelled like B");
+    if (nr >= 2 && i < IN.lb) VASSERT((unsigned char)OUT[r[1].off + i] == IN.b[i], "second re-lexed token is spelled like B");
   VASSERT(nr == 2, "exactly two tokens are re-lexed");
   VCOVER();
 }
@@ -179,6 +185,76 @@ static void pair(int ka, int kb) {
 PAIR(ident, TK_IDENT, ident, TK_IDENT) PAIR(ident, TK_IDENT, num, TK_PP_NUM) PAIR(ident, TK_IDENT, punct, TK_PUNCT)
 PAIR(num, TK_PP_NUM, ident, TK_IDENT) PAIR(num, TK_PP_NUM, num, TK_PP_NUM) PAIR(num, TK_PP_NUM, punct, TK_PUNCT)
 PAIR(punct, TK_PUNCT, ident, TK_IDENT) PAIR(punct, TK_PUNCT, num, TK_PP_NUM) PAIR(punct, TK_PUNCT, punct, TK_PUNCT)
+
+// ---- -E of a whole (tiny) translation unit through the real cc1(): every token that preprocess2 produced is
+// printed. EN (1..3) tokens whose kinds EK0..EK2 over { a, "x", 1, +, "yz" } are fixed per harness build (cbmc does
+// not finish with symbolic kinds: every equal() in preprocess2 then dereferences a symbolic spelling) and whose
+// white-space flags are symbolic are returned by tokenize_file (stub); the REAL cc1() with -E (real preprocess():
+// preprocess2, expand_macro, the line-number pass; convert_pp_tokens cut, no macro defined) must print the
+// spellings of ALL tokens in order, separated by nothing but blanks. (Adjacent string literals used to be
+// concatenated before printing: `"x" "yz"` was printed as `"x"`.)
+#ifndef EN
+#define EN 2
+#define EK0 1
+#define EK1 4
+#define EK2 0
+#endif
+static char ESRC[] = "a \"x\" 1 + \"yz\"";
+static const struct { int off, len; int kind; } ESPELL[5] = { {0, 1, TK_IDENT}, {2, 3, TK_STR}, {6, 1, TK_NUM}, {8, 1, TK_PUNCT}, {10, 4, TK_STR} };
+static const int EK[3] = { EK0, EK1, EK2 };
+struct EIN_t { bool sp[3]; } EIN;
+struct EIN_t nondet_EIN(void);
+static File EFILE = { .name = "e.c", .display_name = "e.c", .file_no = 1, .contents = ESRC };
+Token *stub_tokenize_file(char *path) {
+  Token *first = NULL, *last = NULL;
+  for (int i = 0; i <= EN; i++) {
+    Token *t = calloc(1, sizeof(Token));
+    t->file = &EFILE; t->filename = "e.c";
+    if (i == EN) {
+      t->kind = TK_EOF; t->loc = ESRC + sizeof(ESRC) - 1; t->len = 0; t->line_no = 2; t->at_bol = true;
+    } else {
+      t->kind = ESPELL[EK[i]].kind; t->loc = ESRC + ESPELL[EK[i]].off; t->len = ESPELL[EK[i]].len;
+      t->line_no = 1; t->at_bol = (i == 0); t->has_space = (i != 0) && EIN.sp[i];
+      if (t->kind == TK_STR) { t->ty = array_of(ty_char, t->len - 1); t->str = (t->len == 3) ? "x" : "yz"; }
+      if (t->kind == TK_NUM) { t->ty = ty_int; t->val = 1; }
+    }
+    if (last) last->next = t; else first = t;
+    last = t;
+  }
+  return first;
+}
+void stub_convert_pp_tokens(Token *tok) {}
+// tokenize.c equal(): memcmp(tok->loc, op, tok->len) reads op beyond its terminator when the token is longer than op
+// (standard-level undefined behaviour that no run observes; reported separately in DESIGN.md). Same result, bounded:
+bool stub_equal(Token *tok, char *op) {
+  for (int i = 0; i < 12; i++) {
+    if (i == tok->len) return op[i] == 0;
+    if (op[i] == 0 || tok->loc[i] != op[i]) return false;
+  }
+  return false;
+}
+void *stub_hashmap_get2(HashMap *map, char *key, int keylen) { return NULL; }   // no macro is defined (dictionary contract, C17)
+void h_E_unit(void) {
+#ifdef NATIVE
+  memset(&EIN, 0, sizeof EIN);
+#else
+  EIN = nondet_EIN();
+#endif
+  opt_E = true;
+  base_file = "e.c";
+  OUTN = 0;
+  cc1();
+  OUT[OUTN] = 0;
+  VASSERT(!OUT_overflow, "harness: captured output fits");
+  int o = 0;
+  for (int i = 0; i < EN; i++) {
+    for (int g = 0; g < 2; g++) if (OUT[o] == ' ') o++;
+    for (int k = 0; k < 4; k++)
+      if (k < ESPELL[EK[i]].len) { VASSERT(OUT[o] == ESRC[ESPELL[EK[i]].off + k], "-E prints the spelling of EVERY token the compiler proper consumes, in order"); o++; }
+  }
+  VASSERT(OUT[o] == '\n' && OUT[o + 1] == 0, "nothing else is printed");
+  VCOVER();
+}
 
 #ifdef NATIVE
 // ---- oracle validation: model_lex == real tokenize() -----------------------------------------
@@ -222,6 +298,8 @@ void validate_oracle(void) {
   n += validate_rec(buf, 0, 4, mid, (int)strlen(mid));
   n += validate_rec(buf, 0, 5, small, (int)strlen(small));
   n += validate_rec(buf, 0, 6, small, 10);
+  static const char wide[] = "\xc3\xa9\xc4\x80\xcb\xbf" "a1+.= \n";     // U+00E9, U+0100, U+02FF and ASCII neighbours
+  n += validate_rec(buf, 0, 5, wide, (int)strlen(wide));
   printf("ORACLE-OK %ld buffers: model_lex agrees with the real tokenize()\n", n);
 }
 #endif
@@ -234,6 +312,27 @@ noreturn void stub_error_at(char *loc, char *fmt, ...) { verif_exit(1); }
 // is_ident1/2 are their C11 Annex D specification restricted to c < 128 (the full functions are
 // checked against Annex D for every code point by C11 ident/annexD and utf8/*).  cbmc only; the
 // native oracle validation and replays run the real unicode.c.
+#ifdef WIDE8
+// WIDE8 variant: UTF-8 restricted to 1-byte and to the 2-byte sequences for U+00C0..U+02FF (Latin-1 letters, Latin
+// Extended, IPA: all identifier characters in C11 Annex D except U+00D7 and U+00F7); any other sequence ends the
+// path (outside this harness' alphabet). The full decode_utf8/is_ident1/2 are decided for every code point in C11.
+uint32_t stub_decode_utf8(char **new_pos, char *p) {
+  unsigned char b0 = (unsigned char)p[0];
+  if (b0 < 128) { *new_pos = p + 1; return b0; }
+  unsigned char b1 = (unsigned char)p[1];
+  __CPROVER_assume(0xC3 <= b0 && b0 <= 0xCB && (b1 & 0xC0) == 0x80);
+  *new_pos = p + 2;
+  return ((uint32_t)(b0 & 0x1F) << 6) | (b1 & 0x3F);
+}
+bool stub_is_ident1(uint32_t c) {
+  if (c < 128) return ('a' <= c && c <= 'z') || ('A' <= c && c <= 'Z') || c == '_' || c == '$';
+  VASSERT(0xC0 <= c && c <= 0x2FF, "harness: only U+00C0..U+02FF reaches is_ident1");
+  return c != 0xD7 && c != 0xF7;
+}
+bool stub_is_ident2(uint32_t c) {
+  return stub_is_ident1(c) || ('0' <= c && c <= '9');
+}
+#else
 uint32_t stub_decode_utf8(char **new_pos, char *p) {
   VASSERT((unsigned char)*p < 128, "harness: only ASCII reaches decode_utf8");
   *new_pos = p + 1;
@@ -247,3 +346,4 @@ bool stub_is_ident2(uint32_t c) {
   VASSERT(c < 128, "harness: only ASCII reaches is_ident2");
   return stub_is_ident1(c) || ('0' <= c && c <= '9');
 }
+#endif
